@@ -56,6 +56,8 @@ def jobs(tier, seed):
             for route in ("restore", "load"):
                 for (ks, K) in ([([2], 4), ([1, 1], 4)] if q else [([1], 3), ([2], 4), ([3], 5), ([1, 1], 4), ([2, 1], 5)]):
                     for mei in (1, 2):
+                        if K >= 5 and mei == 2:
+                            continue   # more host paths than the explorer's budget of 300
                         out.append(dict(name=f"resume-pi-reset-{route}-k{'+'.join(map(str, ks))}-K{K}-e{mei}", kind="resume", solver="pi", route=route, ks=ks, K=K,
                                         f=1, m=1, async_=True, devices=1, seed=seed, cost=K,
                                         extra=dict(reset_values_for_each_policy_eval=True, max_eval_iter=mei)))
